@@ -106,7 +106,8 @@ fn insert_contract(n: usize) {
     let live_before = before.map_or(false, |e| e > now);
     // "seen" from first insertion until the ttl has passed
     assert!(fresh == !live_before);
-    assert!(st.cache.contains(&key));
+    // seen from the (first) insertion until its ttl has passed: with a zero ttl that is never
+    assert!(st.cache.contains(&key) == (live_before || ttl_s > 0));
     let after = expiry_of(&st.cache, key);
     if live_before {
         // not refreshed by re-insertion
